@@ -75,6 +75,15 @@ def gen(tier: str, seed: int) -> list[Case]:
             f'def sizes() -> tuple[int, int, int]:\n    """Sizes.\n\n    {named}    """\n    return 1, 2, 3\n\n\n'
             f'class Box:\n    def sizes(self) -> tuple[int, int, int]:\n        """Sizes.\n\n    {named}    """\n        return 1, 2, 3\n'
         )
+        if style == "numpydoc":
+            # more documented results than the code yields, the additional ones typed and without name
+            more = "Returns\n    -------\n    int\n        First.\n    str\n        Second.\n    float\n        Third.\n"
+            src += (
+                f'\n\ndef split_one() -> int:\n    """Split.\n\n    {more}    """\n    return 1\n\n\n'
+                f'def split_pair() -> tuple[int, str]:\n    """Split.\n\n    {more}    """\n    return 1, "a"\n\n\n'
+                f'def split_inferred(n=0):\n    """Split.\n\n    {more}    """\n    return 1\n\n\n'
+                f'class Splitter:\n    def split(self) -> int:\n        """Split.\n\n    {more}    """\n        return 1\n'
+            )
         cases.append(Case(cid=f"c12-docstring-results-{style}", files={"src/pk/__init__.py": "", "src/pk/a_iface.py": src, "src/pk/z_more.py": "def later():\n    pass\n\n\nclass Late:\n    def __init__(self, q=1):\n        self.q = q\n"}, opts=["--docstyle", style], meta={}, reach=REACH))
     return cases
 
